@@ -22,11 +22,15 @@ RULE = ("histories on a fresh Directory volume (30 % of them with Serialize: tru
         "chunk, write failure at a byte limit (RLIMIT_FSIZE), each also killed inside the error path; (c) two overlapping PUTs of one block in one process (A held mid-copy, B started and held, A acknowledged, "
         "B cancelled / finished / process killed); (d') an upload cut short followed by two overlapping PUTs of different blocks in one process (buffer pool reuse); "
         "pre-existing damaged copies of three kinds (other bytes, the block plus extra bytes, half the block); (d) the volume marked full (<root>/full) before a PUT; (e) random histories "
-        "of seed/tick/put/wb/touch/del/untrash/empty ops with kill points. A case is non-trivial when at least one op is "
+        "of seed/tick/put/wb/touch/del/untrash/empty ops with kill points; (f) one PUT on a server with 2-3 Directory volumes in a fixed mount order, each volume "
+        "absent / intact / corrupt / longer copy x ordinary / ReadOnly / marked full / failing (every WriteBlock on it fails at Chtimes), so that PutBlock's "
+        "NextWritable + fall-through loop runs: run, SIGKILL and cancellation at points of every volume's Compare/Touch/WriteBlock; (g) a fixed family that makes "
+        "every instrumented point of WriteBlock a kill point in the quick tier (kill counts per point are in the evidence). A case is non-trivial when at least one op is "
         "killed, cancelled or faulted; distinct = distinct case line")
 ASSUMPTIONS = [
     "process death = loss of all state except the directory map as of the last completed system call (SIGKILL of the process; same kernel keeps running)",
-    "one Directory volume (Serialize off, and on for 30 % of the histories), operations of a history run one after another (races are C04's subject)",
+    "one Directory volume (Serialize off, and on for 30 % of the histories), or 1-3 volumes for the mv cases; operations of a history run one after another (races are C04's subject)",
+    "mv cases: the mount order is fixed by the case line (the driver sorts the volume manager's lists; Arvados itself ranges over a Go map, i.e. any order — the theorems hold for every order)",
     "reader outcomes of WriteBlock are those putWithPipe can produce: a prefix of the hash-verified request body, EOF only after all of it",
 ]
 TRUSTED = [
@@ -223,6 +227,83 @@ def _pool_family(rng, exhaustive):
     return cases
 
 
+
+MV_PRE = {"-": 0, "i": 1, "c": 2, "l": 2}
+
+
+def _mv_points(vols):
+    """Number of verifPoints of an undisturbed PUT on these volumes (mirrors PutBlock at call level)."""
+    ws = [i for i, v in enumerate(vols) if "R" not in v[1:]]
+    n = 0
+    for i in ws:
+        n += 1 if vols[i][0] == "-" else 3
+        if vols[i][0] == "i":
+            return n + 4
+    if not ws:
+        return 0
+    calls = [ws[1 % len(ws)]] + ws
+    for i in calls:
+        if "F" in vols[i][1:]:
+            continue
+        if "X" in vols[i][1:]:
+            n += 6
+            continue
+        return n + 7 + (2 if vols[i][0] != "-" else 0)
+    return n
+
+
+MV_FIXED = [
+    ["-", "-"], ["-", "-F"], ["-F", "-"], ["-", "-X"], ["-X", "-"], ["-F", "-F"], ["-X", "-X"], ["-R", "-"], ["-", "-R"],
+    ["c", "-"], ["-", "c"], ["c", "i"], ["i", "c"], ["l", "-X"], ["iR", "-"], ["-", "iR"], ["cR", "-X"], ["iF", "-"],
+    ["-", "-", "-"], ["-F", "-X", "-"], ["-", "-X", "-F"], ["-X", "-F", "-R"], ["c", "-X", "i"], ["-R", "c", "-X"], ["-F", "-F", "-X"],
+    ["-R", "-R"], ["l", "c", "-"], ["-X", "-X", "-"],
+]
+
+
+def _mv_random_vols(rng):
+    n = rng.choice([2, 2, 3])
+    vols = []
+    for _ in range(n):
+        pre = rng.choice(["-", "-", "-", "i", "c", "l"])
+        flag = rng.choice(["", "", "", "F", "X", "X", "R", "FX"])
+        vols.append(pre + flag)
+    return vols
+
+
+def _mv_family(rng, exhaustive):
+    cases = []
+    configs = list(MV_FIXED) if exhaustive else rng.sample(MV_FIXED, 9)
+    configs += [_mv_random_vols(rng) for _ in range(30 if exhaustive else 5)]
+    for vols in configs:
+        b = _spec(rng, rng.choice(["zero", "one", "small", "small", "small", "big"] if exhaustive else ["one", "small", "small", "small", "big"]))
+        if b.startswith("0.") and any(v[0] in "cl" for v in vols) is False and rng.random() < 0.5:
+            b = _spec(rng, "small")
+        n = _mv_points(vols)
+        head = f"mv {b}:{','.join(vols)}:"
+        cases.append(head + "run")
+        if exhaustive:
+            cases += [head + f"k{i}" for i in range(n)] + [head + f"c{i}" for i in range(n)]
+        elif n > 0:
+            ks = {rng.randrange(n), rng.randrange(n)}
+            cases += [head + f"k{i}" for i in sorted(ks)] + [head + f"c{rng.randrange(n)}"]
+    return cases
+
+
+def _wb_killpoint_family(rng):
+    """Every instrumented point of WriteBlock as a kill point (quick tier): the nine points of an overwrite of a
+    corrupt copy (MkdirAll … flock of the old copy … Rename), Close:3 / Remove:4 of the copy-error return, Remove:8
+    (Chtimes failed) and Remove:14 (Rename failed) through fault injection. Close:6 and Remove:11 need a failing
+    tmpfile.Close / flock and cannot be reached at run time."""
+    b = _spec(rng, "small")
+    cases = [f"hist seed:{b}:corrupt;put:{b}:k{i}" for i in range(3, 12)]
+    size = int(b.split(".")[0])
+    chunk = max(1, (size + 1) // 2)
+    cases += [f"hist wb:{b}:{chunk}:e1:0:k3", f"hist wb:{b}:{chunk}:e1:0:k4"]
+    # absent pre-state: compare 1 point, WriteBlock points at 1..7; Chtimes is point 5, Rename point 7
+    cases += [f"hist put:{b}:f5k6", f"hist put:{b}:f7k8"]
+    return cases
+
+
 def _put_enumeration(rng, kinds, exhaustive):
     cases = []
     for kind in kinds:
@@ -358,6 +439,8 @@ def _generate(rng, tier):
             cases += _put2_family(rng, kind, False)
         cases += _full_family(rng, rng.choice(["zero", "one", "small", "big"]))
         cases += _pool_family(rng, False)
+        cases += _mv_family(rng, False)
+        cases += _wb_killpoint_family(rng)
         cases += [_random_history(rng, tier) for _ in range(45)]
     else:
         cases += _put_enumeration(rng, ["zero", "one", "small", "small", "mid", "big"], True)
@@ -369,6 +452,8 @@ def _generate(rng, tier):
         for kind in ("zero", "one", "small", "mid", "big"):
             cases += _full_family(rng, kind)
         cases += _pool_family(rng, True)
+        cases += _mv_family(rng, True)
+        cases += _wb_killpoint_family(rng)
         cases += [_random_history(rng, tier) for _ in range(400)]
     return cases
 
@@ -403,6 +488,66 @@ def _parse_obs(obs):
     return d
 
 
+
+def _oracle_mv(case, impl):
+    """One PUT on several volumes. From the property text, implementation output only:
+    (1) the restarted server's GET (over all mounts) and the GET of every single volume is an error status or the
+        complete block; (2) the index is complete, lists only the block's name, and as many lines carry the true
+        size as there are volumes that serve the block — every other line is a damaged copy the environment planted
+        (still in place, its volume does not serve the block); (3) no temp name is listed;
+    (4) after a 200 (also killed right after it) the restarted server serves the block."""
+    spec, vols, mode = case.split(" ")[1].split(":")
+    vols = vols.split(",")
+    b, h = body(spec)
+    if " ; " not in impl:
+        return "malformed mv result: " + impl[:200]
+    head, obs = impl.split(" ; ", 1)
+    result = head.split(",", 1)[0]
+    if result in ("exit-unknown", "setup-error", "cancel-timeout", "bad-op") or result.startswith("panic"):
+        return f"child process failed: {result}"
+    want = f"200/{len(b)}/{h}"
+    toks = obs.split(" ")
+    get, vget, idx = None, {}, None
+    for t in toks:
+        if t.startswith("get:"):
+            get = t.split("=", 1)[1]
+        elif re.match(r"^v\d+:get=", t):
+            vget[int(t[1:t.index(":")])] = t.split("=", 1)[1]
+        elif t.startswith("idx="):
+            idx = t[4:]
+    if get is None or idx is None or len(vget) != len(vols):
+        return "malformed mv observation: " + obs[:200]
+    for name, v in [("server", get)] + [(f"volume {i}", v) for i, v in sorted(vget.items())]:
+        if v.startswith("200") and v != want:
+            return f"GET on {name} returned 200 with a body that is not the complete block ({v})"
+    if result in ("200", "killed/200") and get != want:
+        return f"the PUT was acknowledged ({result}) but the restarted server answers {get}"
+    if any(v == want for v in vget.values()) and get != want:
+        return f"a volume holds the complete block but the server answers {get}"
+    st, _, lines = idx.partition(":")
+    if st != "200/complete":
+        return f"index response is {st}"
+    planted = {damaged_len({"c": "corrupt", "l": "longer"}[v[0]], len(b)) for v in vols if v[0] in "cl"}
+    good_lines = 0
+    for line in ([] if lines == "-" else lines.split(",")):
+        m = re.match(r"^(.*)\+(\d+)@(new|old)$", line)
+        if not m:
+            return f"malformed index line {line!r}"
+        name, sz = m.group(1), int(m.group(2))
+        if not HEX32.match(name):
+            return f"index lists {name!r}, which is not a block name (temporary file visible?)"
+        if name != h:
+            return f"index lists {name}, which is not the block of this case"
+        if sz == len(b):
+            good_lines += 1
+        elif sz not in planted:
+            return f"index lists {name}+{sz} but the complete block has {len(b)} bytes: an incomplete block is visible"
+    serving = sum(1 for v in vget.values() if v == want)
+    if good_lines != serving:
+        return f"index lists {good_lines} copies with the true size but {serving} volumes serve the block"
+    return None
+
+
 def oracle(case, impl):
     """From the property text, on implementation output only.
     (1) a GET on the restarted server is an error status or the complete correct block;
@@ -414,6 +559,8 @@ def oracle(case, impl):
         return None
     if impl.startswith(("panic", "CRASH", "bad-op", "restart-failed")):
         return "driver could not observe the volume: " + impl[:200]
+    if case.startswith("mv "):
+        return _oracle_mv(case, impl)
     ops = [o for o in _ops(case)]
     proc_ops = [o for o in ops if not (o in ("tick", "full") or o.startswith("seed:"))]
     segs = impl.split(" | ")
@@ -522,6 +669,8 @@ def oracle(case, impl):
 # ------------------------------------------------------------------------------------- evidence
 
 def nontrivial_key(case, impl):
+    if case.startswith("mv "):
+        return case if not case.endswith(":run") else None
     for o in _ops(case):
         g = o.split(":")
         if g[0] in ("tick", "seed", "full"):
@@ -533,7 +682,43 @@ def nontrivial_key(case, impl):
 
 def describe(cases, impl):
     ops, modes, sizes, pre, results = {}, {}, {}, {}, {}
+    kill_at, cancel_at, mv = {}, {}, {"cases": 0, "volumes": {}, "flags": {}, "pre": {}, "results": {}, "fallthrough_200": 0}
     for c, r in zip(cases, impl):
+        if c.startswith("mv "):
+            spec, vols, mode = c.split(" ")[1].split(":")
+            mv["cases"] += 1
+            vl = vols.split(",")
+            mv["volumes"][str(len(vl))] = mv["volumes"].get(str(len(vl)), 0) + 1
+            for v in vl:
+                mv["pre"][v[0]] = mv["pre"].get(v[0], 0) + 1
+                for fl in (v[1:] or "plain"):
+                    fl = "plain" if v[1:] == "" else fl
+                    mv["flags"][fl] = mv["flags"].get(fl, 0) + 1
+                    if v[1:] == "":
+                        break
+            modes[mode[0] if mode != "run" else "run"] = modes.get(mode[0] if mode != "run" else "run", 0) + 1
+            if r:
+                head = r.split(" ; ", 1)[0].split(",")
+                mv["results"][head[0]] = mv["results"].get(head[0], 0) + 1
+                pts = [p for p in head[1:] if "/" in p]
+                if sum(1 for p in pts if p.endswith("/WriteBlock:os.MkdirAll:0")) >= 2:
+                    mv["second_put_call_ran"] = mv.get("second_put_call_ran", 0) + 1  # fall-through / retry after a failed Put
+                    if head[0] == "200":
+                        mv["fallthrough_200"] += 1
+                if head[0].startswith("killed") and pts:
+                    k = pts[-1].split("/", 1)[1]
+                    kill_at[k] = kill_at.get(k, 0) + 1
+        # which instrumented point the process was killed at (last point reported by a killed child)
+        if r and not c.startswith("mv "):
+            for seg in r.split(" | "):
+                head = seg.split(" ; ", 1)[0].split(",")
+                pts = [p for p in head[1:] if ":" in p]
+                if head[0].startswith("killed") and pts and head[-1] not in ("X",):
+                    kill_at[pts[-1]] = kill_at.get(pts[-1], 0) + 1
+            for o in _ops(c):
+                g = o.split(":")
+                if g[0] == "put" and g[-1][0] in "cm":
+                    cancel_at[g[-1][0]] = cancel_at.get(g[-1][0], 0) + 1
         for o in _ops(c):
             g = o.split(":")
             ops[g[0]] = ops.get(g[0], 0) + 1
@@ -550,8 +735,13 @@ def describe(cases, impl):
             for seg in r.split(" | "):
                 k = seg.split(",", 1)[0]
                 results[k] = results.get(k, 0) + 1
+    wb_pts = [p for p in (_points_line[0] or "").replace("points ", "").split(",") if p.startswith("WriteBlock:")]
     return {"ops": ops, "modes(run/kill/cancel)": modes, "put_wb_sizes": sizes, "seeded_pre_states": pre,
-            "op_results": results, "points_case": _points_line[0]}
+            "op_results": results, "points_case": _points_line[0],
+            "kills_per_point": dict(sorted(kill_at.items())),
+            "writeblock_points_never_a_kill_point": [p for p in wb_pts if p not in kill_at],
+            "cancel_modes(c=at a point, m=mid-copy)": cancel_at,
+            "multi_volume": mv}
 
 
 def neighbours(case, rng):
